@@ -41,6 +41,7 @@ struct ShimCfg {
 	uint32_t rate_read_short, rate_write_short, rate_write_err, rate_read_err;
 	uint32_t rate_falloc, rate_unlink, rate_emfile, rate_mmap, rate_epoll_shuffle;
 	int realloc_always_moves;
+	int memcpy_stride_words;    // simk_memcpy yields once per this many words (0 = every word)
 	int64_t epoll_zero_cost_ns; // virtual cost charged per zero-timeout epoll_wait
 	int64_t call_cost_ns;       // virtual cost charged per intercepted call (0 = none)
 };
